@@ -59,7 +59,7 @@ def plan(tier, seed):
     for i in range(NTRAJ[tier]):
         r = core.case_rng(seed, PROPERTY, 100 + i)
         system = ['alzr', 'nialcr', 'almgsi', 'nialcr', 'alzr'][i % 5]
-        cfg = precip_gen.gen_config(r, system=system, tier=tier, allow_noniso=False, grid_class='in_range')
+        cfg = precip_gen.gen_config(r, system=system, tier=tier, allow_noniso=False, grid_class='in_range', allow_elastic=True)
         cfg['max_steps'] = min(cfg['max_steps'], 1200 if tier == 'quick' else 3000)
         cases.append({'kind': 'trajectory', 'cfg': cfg, 'weight': precip_gen.cfg_weight(cfg)})
     return cases
